@@ -966,7 +966,12 @@ func (env *CEnv) pureCall(fn *types.Func, recv Value, recvT types.Type, argExprs
 		ce.names["r0"] = bound{val, rt}
 		ce.old = env.s
 		for _, e := range k.Ensures {
-			env.s.assume(c.cevalBoolEnv(e.Expr, ce))
+			g := c.cevalBoolEnv(e.Expr, ce)
+			if len(env.qvars) > 0 {
+				// under binders the instance is a fact about every value of the bound variables
+				g = forall(env.qvars, g)
+			}
+			env.s.assume(g)
 		}
 		c.pureDepth--
 	}
